@@ -58,6 +58,50 @@ def getCurrentUrl (o : UrlOpaque) (scheme host rootPath path : Str) (query : Byt
     ++ (if query.isEmpty then [] else '?' :: quoteBytes Gen.UrlTables.curQuerySafe query)
   uriToIriText o url
 
+/-- `sansio.utils.get_current_url` with its optional parts: without `root_path` only
+`scheme://host/`, without `path` only up to the root -/
+def getCurrentUrlOpt (o : UrlOpaque) (scheme host : Str) (rootPath path : Option Str) (query : Bytes) :
+    Except String Str :=
+  let url := scheme ++ "://".toList ++ host
+  match rootPath with
+  | none => uriToIriText o (url ++ ['/'])
+  | some r =>
+    let url := url ++ quote Gen.UrlTables.curRootSafe (rstripSlash r) ++ ['/']
+    match path with
+    | none => uriToIriText o url
+    | some p =>
+      uriToIriText o (url ++ quote Gen.UrlTables.curPathSafe (lstripSlash p)
+        ++ (if query.isEmpty then [] else '?' :: quoteBytes Gen.UrlTables.curQuerySafe query))
+
+/-- `werkzeug.wsgi.get_current_url(environ, root_only, strip_querystring, host_only)`:
+`sansio.get_current_url` applied to the environ values after the WSGI decoding dance (16e16ac) -/
+def wsgiCurrentUrl (o : UrlOpaque) (e : Environ) (rootOnly stripQs hostOnly : Bool) : Except String Str :=
+  match decodingDance e.scriptName, decodingDance e.pathInfo, Py.latin1Enc e.queryString with
+  | some root, some p, some q =>
+    getCurrentUrlOpt o e.urlScheme (getHost e.urlScheme e.httpHost)
+      (if hostOnly then none else some root)
+      (if hostOnly || rootOnly then none else some p)
+      (if stripQs then [] else q)
+  | _, _, _ => .error "UnicodeEncodeError"
+
+/-- `Request.url`, `.base_url`, `.root_url`, `.host_url` -/
+def requestUrls (o : UrlOpaque) (e : Environ) : Except String (Str × Str × Str × Str) :=
+  match decodingDance e.scriptName, decodingDance e.pathInfo, Py.latin1Enc e.queryString with
+  | some root, some p, some q =>
+    let rootPath := rstripSlash root
+    let path := '/' :: lstripSlash p
+    let host := getHost e.urlScheme e.httpHost
+    match getCurrentUrlOpt o e.urlScheme host (some rootPath) (some path) q,
+          getCurrentUrlOpt o e.urlScheme host (some rootPath) (some path) [],
+          getCurrentUrlOpt o e.urlScheme host (some rootPath) none [],
+          getCurrentUrlOpt o e.urlScheme host none none [] with
+    | .ok a, .ok b, .ok c, .ok d => .ok (a, b, c, d)
+    | .error x, _, _, _ => .error x
+    | _, .error x, _, _ => .error x
+    | _, _, .error x, _ => .error x
+    | _, _, _, .error x => .error x
+  | _, _, _ => .error "UnicodeEncodeError"
+
 /-- what `Request(environ)` reports -/
 structure RequestView where
   path : Str
